@@ -9,7 +9,7 @@ from .stubs import make_stubs
 from .contract import verify_function
 from . import solve
 
-CONTRACT_MODULES = ["contracts.core", "contracts.utils", "contracts.transforms", "contracts.dedispersion"]
+CONTRACT_MODULES = ["contracts.core", "contracts.utils", "contracts.transforms", "contracts.dedispersion", "contracts.fftmisc"]
 
 
 def load(root="/repo", modules=None):
